@@ -124,8 +124,8 @@ impl PixelDataWriter for DeflatedImageFrameAdapter {
             .finish()
             .whatever_context("failed to finish deflated data encoding")?;
 
-        if dst.len() % 2 == 1 {
-            // add null byte to maintain even length
+        if (dst.len() - len_before) % 2 == 1 {
+            // add null byte to give the fragment an even length
             dst.push(0);
         }
 
